@@ -1,2 +1,385 @@
+(* C22 — lemmas about the naming part of the model: std::path on unix byte strings,
+   add_lock_suffix / strip_lock_suffix / at_path_name. *)
+From Coq Require Import Lia.
 From GixV.Base Require Import Bytes BytesFacts Outcome.
 From GixV.C22 Require Import Model.
+
+(* ---- the vocabulary of the statements ------------------------------------------------------ *)
+
+Definition no_sep (l : bytes) : Prop := forallb (fun b => negb (is_sep b)) l = true.
+(* a file name: non-empty, no separator, not "." and not ".." — ANY other bytes, valid UTF-8 or not *)
+Definition valid_name (n : bytes) : Prop :=
+  n <> [] /\ no_sep n /\ n <> bs "." /\ n <> bs "..".
+(* what may stand in front of the file name: nothing, or anything ending in a separator *)
+Definition dir_ok (d : bytes) : Prop := d = [] \/ exists d', d = d' ++ [x2f].
+
+Lemma bytes_eqb_false a b : a <> b -> bytes_eqb a b = false.
+Proof.
+  intros H. destruct (bytes_eqb a b) eqn:E; [|reflexivity].
+  apply bytes_eqb_eq in E. contradiction.
+Qed.
+Lemma bytes_eqb_refl a : bytes_eqb a a = true.
+Proof. apply bytes_eqb_eq. reflexivity. Qed.
+
+Lemma no_sep_app a b : no_sep (a ++ b) <-> no_sep a /\ no_sep b.
+Proof. unfold no_sep. rewrite forallb_app, Bool.andb_true_iff. reflexivity. Qed.
+Lemma no_sep_cons x a : no_sep (x :: a) <-> is_sep x = false /\ no_sep a.
+Proof.
+  unfold no_sep. cbn [forallb]. rewrite Bool.andb_true_iff, Bool.negb_true_iff. reflexivity.
+Qed.
+Lemma no_sep_existsb l : no_sep l -> existsb is_sep l = false.
+Proof.
+  induction l as [|x l IH]; intros H; [reflexivity|].
+  apply no_sep_cons in H as [Hx Hl]. cbn [existsb]. rewrite Hx, (IH Hl). reflexivity.
+Qed.
+
+Lemma classify_valid n : valid_name n -> classify n = Some (CNormal n).
+Proof.
+  intros (Hne & _ & Hd & Hdd). unfold classify.
+  rewrite (bytes_eqb_false _ _ Hd), (bytes_eqb_false _ _ Hdd).
+  destruct n; [contradiction|reflexivity].
+Qed.
+
+(* ---- back_scan ----------------------------------------------------------------------------- *)
+
+(* [acc] is collected in front: scanning "name" backwards conses its bytes from last to first *)
+Lemma back_scan_name : forall rname acc rest, no_sep rname ->
+  back_scan (rname ++ rest) acc = back_scan rest (rev rname ++ acc).
+Proof.
+  induction rname as [|x rname IH]; intros acc rest H; [reflexivity|].
+  apply no_sep_cons in H as [Hx Hn].
+  cbn [app back_scan]. rewrite Hx. rewrite (IH (x :: acc) rest Hn).
+  cbn [rev]. rewrite <- app_assoc. reflexivity.
+Qed.
+
+Lemma no_sep_rev l : no_sep l -> no_sep (rev l).
+Proof.
+  induction l as [|x l IH]; intros H; [exact H|].
+  apply no_sep_cons in H as [Hx Hl]. cbn [rev]. apply no_sep_app. split; [auto|].
+  apply no_sep_cons. split; [exact Hx|reflexivity].
+Qed.
+
+(* the body ends in a valid name, in front of it nothing or something ending in a separator *)
+Lemma back_scan_clean name dbody : valid_name name -> dir_ok dbody ->
+  back_scan (rev (dbody ++ name)) [] = Some (rev dbody, CNormal name).
+Proof.
+  intros Hv Hd. pose proof Hv as (_ & Hns & _).
+  rewrite rev_app_distr, (back_scan_name (rev name) [] (rev dbody) (no_sep_rev _ Hns)).
+  rewrite rev_involutive, app_nil_r.
+  destruct Hd as [-> | [d' ->]].
+  - cbn [rev back_scan]. rewrite (classify_valid _ Hv). reflexivity.
+  - rewrite rev_app_distr. cbn [rev app back_scan].
+    replace (is_sep x2f) with true by reflexivity.
+    rewrite (classify_valid _ Hv). reflexivity.
+Qed.
+
+(* ---- prefix / body of a clean path --------------------------------------------------------- *)
+
+Lemma valid_name_head n : valid_name n -> exists x r, n = x :: r /\ is_sep x = false /\ no_sep r.
+Proof.
+  intros (Hne & Hns & _). destruct n as [|x r]; [contradiction|].
+  apply no_sep_cons in Hns as [Hx Hr]. eauto.
+Qed.
+
+Lemma is_sep_2f x : is_sep x = true -> x = x2f.
+Proof. unfold is_sep. apply beqb_eq. Qed.
+
+Lemma dir_ok_tail x d : dir_ok (x :: d) -> dir_ok d.
+Proof.
+  intros [H | [d' H]]; [discriminate|].
+  destruct d' as [|y d'].
+  - injection H as -> ->. left. reflexivity.
+  - injection H as -> ->. right. eauto.
+Qed.
+
+(* the split of a clean path into the part std keeps out of the body and the body *)
+Lemma clean_split dir name : valid_name name -> dir_ok dir ->
+  exists dbody, dir_ok dbody /\
+    path_pre (dir ++ name) ++ dbody = dir /\ path_body (dir ++ name) = dbody ++ name.
+Proof.
+  intros Hv Hd. destruct (valid_name_head _ Hv) as (x & r & -> & Hx & Hr).
+  unfold path_pre, path_body, len_before_body.
+  destruct dir as [|d0 dir'].
+  - (* no directory part: the name is the whole path *)
+    exists []. cbn [app]. unfold include_cur_dir, has_root. rewrite Hx.
+    assert (Hinc : (match r with [] => is_dot x | b :: _ => is_dot x && is_sep b end) = false).
+    { destruct r as [|b r'].
+      - destruct (is_dot x) eqn:E; [|reflexivity]. exfalso.
+        destruct Hv as (_ & _ & Hnd & _). apply Hnd. unfold is_dot in E. apply beqb_eq in E. subst x. reflexivity.
+      - apply no_sep_cons in Hr as [Hb _]. rewrite Hb. apply Bool.andb_false_r. }
+    destruct r as [|b r']; rewrite Hinc; cbn; repeat split; try (left; reflexivity).
+  - pose proof (dir_ok_tail _ _ Hd) as Hd'.
+    cbn [app]. unfold include_cur_dir. cbn [has_root].
+    destruct (is_sep d0) eqn:Es.
+    + (* rooted *)
+      exists dir'. cbn. repeat split; auto.
+    + (* dir' is non-empty and ends with a separator *)
+      destruct dir' as [|b dir''].
+      { exfalso. destruct Hd as [H | [d' H]]; [discriminate|].
+        destruct d' as [|y d']; [|destruct d'; discriminate].
+        injection H as ->. discriminate. }
+      cbn [app]. destruct (is_dot d0 && is_sep b) eqn:Ei.
+      * exists (b :: dir''). cbn. repeat split; auto.
+      * exists (d0 :: b :: dir''). cbn. repeat split; auto.
+Qed.
+
+Lemma file_prefix_clean dir name : valid_name name -> dir_ok dir ->
+  file_prefix (dir ++ name) = Some (dir, name).
+Proof.
+  intros Hv Hd. destruct (clean_split dir name Hv Hd) as (dbody & Hdb & Hpre & Hbody).
+  unfold file_prefix. rewrite Hbody, (back_scan_clean _ _ Hv Hdb), rev_involutive, Hpre. reflexivity.
+Qed.
+
+Lemma file_name_clean dir name : valid_name name -> dir_ok dir -> file_name (dir ++ name) = Some name.
+Proof. intros Hv Hd. unfold file_name. rewrite (file_prefix_clean _ _ Hv Hd). reflexivity. Qed.
+
+(* ---- rsplit -------------------------------------------------------------------------------- *)
+
+Lemma rsplit_at_spec f : forall l,
+  match rsplit_at f l with
+  | (Some bef, aft) => exists s, l = bef ++ s :: aft /\ f s = true /\ forallb (fun b => negb (f b)) aft = true
+  | (None, aft) => aft = l /\ forallb (fun b => negb (f b)) l = true
+  end.
+Proof.
+  induction l as [|b r IH]; cbn [rsplit_at]; [split; reflexivity|].
+  destruct (rsplit_at f r) as [[bef|] aft].
+  - destruct IH as (s & -> & Hs & Ha). exists s. repeat split; auto.
+  - destruct IH as [-> Ha]. destruct (f b) eqn:E.
+    + exists b. repeat split; auto.
+    + split; [reflexivity|]. cbn [forallb]. rewrite E. exact Ha.
+Qed.
+
+Lemma rsplit_at_app f : forall bef s aft, f s = true -> forallb (fun b => negb (f b)) aft = true ->
+  rsplit_at f (bef ++ s :: aft) = (Some bef, aft).
+Proof.
+  intros bef s aft Hs Ha.
+  assert (H0 : rsplit_at f aft = (None, aft)).
+  { pose proof (rsplit_at_spec f aft) as H. destruct (rsplit_at f aft) as [[b|] a].
+    - destruct H as (s' & -> & Hs' & _). rewrite forallb_app in Ha.
+      apply Bool.andb_true_iff in Ha as [_ Ha]. cbn [forallb] in Ha. rewrite Hs' in Ha. discriminate.
+    - destruct H as [-> _]. reflexivity. }
+  induction bef as [|b bef IH]; cbn [app rsplit_at].
+  - rewrite H0, Hs. reflexivity.
+  - rewrite IH. reflexivity.
+Qed.
+
+(* stem and extension put the name back together; the stem always exists *)
+Lemma rsplit_file_spec n :
+  match rsplit_file_at_dot n with
+  | (Some stem, Some e) => n = stem ++ x2e :: e
+  | (Some stem, None) => stem = n
+  | (None, _) => False
+  end.
+Proof.
+  unfold rsplit_file_at_dot. destruct (bytes_eqb n (bs "..")); [reflexivity|].
+  pose proof (rsplit_at_spec is_dot n) as H.
+  destruct (rsplit_at is_dot n) as [[bef|] aft].
+  - destruct H as (s & -> & Hs & _). destruct bef; [reflexivity|].
+    unfold is_dot in Hs. apply beqb_eq in Hs. subst s. reflexivity.
+  - destruct H as [-> _]. reflexivity.
+Qed.
+
+(* ---- set_extension on a clean path --------------------------------------------------------- *)
+
+Lemma set_extension_clean dir name ext : valid_name name -> dir_ok dir -> no_sep ext ->
+  set_extension (dir ++ name) ext =
+  Ok (match fst (rsplit_file_at_dot name) with
+      | Some stem => match ext with [] => dir ++ stem | _ => (dir ++ stem) ++ x2e :: ext end
+      | None => dir ++ name
+      end).
+Proof.
+  intros Hv Hd He. unfold set_extension.
+  rewrite (no_sep_existsb _ He), (file_prefix_clean _ _ Hv Hd).
+  destruct (fst (rsplit_file_at_dot name)); reflexivity.
+Qed.
+
+Lemma extension_clean dir name : valid_name name -> dir_ok dir ->
+  extension (dir ++ name) = snd (rsplit_file_at_dot name).
+Proof. intros Hv Hd. unfold extension. rewrite (file_name_clean _ _ Hv Hd). reflexivity. Qed.
+
+Lemma no_sep_lock : no_sep DOT_LOCK. Proof. reflexivity. Qed.
+
+(* ---- add_lock_suffix ----------------------------------------------------------------------- *)
+
+Lemma L_lock_path_is_suffix dir name : valid_name name -> dir_ok dir ->
+  add_lock_suffix (dir ++ name) = Ok (dir ++ name ++ DOT_LOCK).
+Proof.
+  intros Hv Hd. unfold add_lock_suffix. rewrite (extension_clean _ _ Hv Hd).
+  pose proof (rsplit_file_spec name) as Hs.
+  pose proof Hv as (_ & Hns & _).
+  destruct (rsplit_file_at_dot name) as [[stem|] [e|]] eqn:E; try contradiction; cbn [snd].
+  - (* an extension, whatever its bytes *)
+    assert (He : no_sep (e ++ DOT_LOCK)).
+    { rewrite Hs in Hns. apply no_sep_app in Hns as [_ Hns]. apply no_sep_cons in Hns as [_ Hns].
+      apply no_sep_app. split; [exact Hns|exact no_sep_lock]. }
+    rewrite (set_extension_clean _ _ _ Hv Hd He), E. cbn [fst].
+    assert (Hm : forall (x y : bytes), match e ++ DOT_LOCK with [] => x | _ :: _ => y end = y)
+      by (intros; destruct e; reflexivity).
+    rewrite Hm, Hs. f_equal. repeat rewrite <- app_assoc. cbn [app]. reflexivity.
+  - rewrite (set_extension_clean _ _ (bs "lock") Hv Hd eq_refl), E. cbn [fst]. subst stem.
+    f_equal. repeat rewrite <- app_assoc. reflexivity.
+Qed.
+
+(* ---- strip_lock_suffix --------------------------------------------------------------------- *)
+
+Lemma valid_name_app_nonempty name suf : valid_name name -> no_sep suf -> (2 <= length suf)%nat ->
+  valid_name (name ++ suf).
+Proof.
+  intros (Hne & Hns & _) Hs Hl. repeat split.
+  - destruct name; [contradiction|discriminate].
+  - apply no_sep_app. auto.
+  - intros H. apply (f_equal (@length byte)) in H. rewrite app_length in H. cbn in H.
+    destruct name; [contradiction|]. cbn in H. lia.
+  - intros H. apply (f_equal (@length byte)) in H. rewrite app_length in H. cbn in H.
+    destruct name; [contradiction|]. cbn in H. lia.
+Qed.
+
+Lemma valid_name_dot name : valid_name name -> valid_name (name ++ [x2e]).
+Proof.
+  intros Hv. pose proof Hv as (Hne & Hns & Hd & Hdd). repeat split.
+  - destruct name; discriminate.
+  - apply no_sep_app. split; [exact Hns|reflexivity].
+  - intros H. destruct name as [|a [|b r]]; try discriminate. contradiction.
+  - intros H. destruct name as [|a [|b [|c r]]]; try discriminate.
+    injection H as ->. apply Hd. reflexivity.
+Qed.
+
+Lemma rsplit_file_lock name suf : name <> [] -> forallb (fun b => negb (is_dot b)) suf = true ->
+  name ++ x2e :: suf <> bs ".." ->
+  rsplit_file_at_dot (name ++ x2e :: suf) = (Some name, Some suf).
+Proof.
+  intros Hne Hs Hdd. unfold rsplit_file_at_dot. rewrite (bytes_eqb_false _ _ Hdd).
+  rewrite (rsplit_at_app is_dot name x2e suf eq_refl Hs).
+  destruct name; [contradiction|reflexivity].
+Qed.
+
+Lemma L_strip_add dir name : valid_name name -> dir_ok dir ->
+  strip_lock_suffix (dir ++ name ++ DOT_LOCK) = Ok (dir ++ name).
+Proof.
+  intros Hv Hd. pose proof Hv as (Hne & Hns & Hnd & Hndd).
+  assert (Hvl : valid_name (name ++ DOT_LOCK)) by (apply valid_name_app_nonempty; [exact Hv|reflexivity|cbn; lia]).
+  assert (Hsplit : rsplit_file_at_dot (name ++ DOT_LOCK) = (Some name, Some (bs "lock"))).
+  { apply (rsplit_file_lock name (bs "lock") Hne eq_refl).
+    intros H. apply (f_equal (@length byte)) in H. rewrite app_length in H. cbn in H. lia. }
+  unfold strip_lock_suffix. rewrite (extension_clean _ _ Hvl Hd), Hsplit. cbn [snd].
+  replace (utf8_valid (bs "lock")) with true by reflexivity.
+  replace (is_char_boundary (bs "lock") (length (bs "lock") - 5)) with true by reflexivity.
+  replace (firstn (length (bs "lock") - 5) (bs "lock")) with (@nil byte) by reflexivity.
+  unfold with_extension. rewrite (extension_clean _ _ Hvl Hd), Hsplit. cbn [snd].
+  (* the slice std copies: the path minus "lock", i.e. dir ++ name ++ "." *)
+  assert (Hslice : firstn (length (dir ++ name ++ DOT_LOCK) - length (bs "lock")) (dir ++ name ++ DOT_LOCK)
+                   = dir ++ (name ++ [x2e])).
+  { replace (dir ++ name ++ DOT_LOCK) with ((dir ++ name ++ [x2e]) ++ bs "lock")
+      by (rewrite <- !app_assoc; reflexivity).
+    rewrite app_length. replace (length (dir ++ name ++ [x2e]) + length (bs "lock") - length (bs "lock"))%nat
+      with (length (dir ++ name ++ [x2e]) + 0)%nat by lia.
+    rewrite firstn_app_2. cbn [firstn]. rewrite app_nil_r. reflexivity. }
+  rewrite Hslice.
+  rewrite (set_extension_clean dir (name ++ [x2e]) [] (valid_name_dot _ Hv) Hd eq_refl).
+  assert (Hs2 : rsplit_file_at_dot (name ++ [x2e]) = (Some name, Some [])).
+  { apply (rsplit_file_lock name [] Hne eq_refl).
+    intros H. pose proof (f_equal (@length byte) H) as HL. rewrite app_length in HL. cbn in HL.
+    destruct name as [|a [|b r]]; cbn in HL; try lia. injection H as Ha. subst a. apply Hnd. reflexivity. }
+  rewrite Hs2. reflexivity.
+Qed.
+
+(* ---- where gix-tempfile creates the file ------------------------------------------------------ *)
+
+Lemma L_at_path_name dir name : valid_name name -> dir_ok dir ->
+  at_path_name (dir ++ name ++ DOT_LOCK) = name ++ DOT_LOCK.
+Proof.
+  intros Hv Hd. pose proof Hv as (Hne & _).
+  assert (Hvl : valid_name (name ++ DOT_LOCK)) by (apply valid_name_app_nonempty; [exact Hv|reflexivity|cbn; lia]).
+  assert (Hsplit : rsplit_file_at_dot (name ++ DOT_LOCK) = (Some name, Some (bs "lock"))).
+  { apply (rsplit_file_lock name (bs "lock") Hne eq_refl).
+    intros H. apply (f_equal (@length byte)) in H. rewrite app_length in H. cbn in H. lia. }
+  unfold at_path_name, file_stem. rewrite (extension_clean _ _ Hvl Hd), (file_name_clean _ _ Hvl Hd), Hsplit.
+  reflexivity.
+Qed.
+
+(* ---- no panic, for every byte string ----------------------------------------------------------- *)
+
+Lemma back_scan_no_sep : forall rb acc rbs n, no_sep acc ->
+  back_scan rb acc = Some (rbs, CNormal n) -> no_sep n.
+Proof.
+  induction rb as [|b r IH]; intros acc rbs n Hacc H; cbn [back_scan] in H.
+  - unfold classify in H.
+    destruct (bytes_eqb acc (bs ".")); [discriminate|].
+    destruct (bytes_eqb acc (bs "..")); [discriminate|].
+    destruct acc; [discriminate|]. injection H as _ <-. exact Hacc.
+  - destruct (is_sep b) eqn:Es.
+    + unfold classify in H.
+      destruct (bytes_eqb acc (bs ".")); [eapply IH; [|exact H]; reflexivity|].
+      destruct (bytes_eqb acc (bs "..")); [discriminate|].
+      destruct acc; [eapply IH; [|exact H]; reflexivity|]. injection H as _ <-. exact Hacc.
+    + eapply IH; [|exact H]. apply no_sep_cons. auto.
+Qed.
+
+Lemma file_name_no_sep p n : file_name p = Some n -> no_sep n.
+Proof.
+  unfold file_name, file_prefix. intros H.
+  destruct (back_scan (rev (path_body p)) []) as [[rbs [| | |m]]|] eqn:E; try discriminate.
+  injection H as <-. eapply back_scan_no_sep; [|exact E]. reflexivity.
+Qed.
+
+Lemma extension_no_sep p e : extension p = Some e -> no_sep e.
+Proof.
+  unfold extension. destruct (file_name p) as [n|] eqn:E; [|discriminate].
+  pose proof (file_name_no_sep _ _ E) as Hn. pose proof (rsplit_file_spec n) as Hs. intros H.
+  destruct (rsplit_file_at_dot n) as [[stem|] [e'|]]; try contradiction; cbn [snd] in H; [|discriminate].
+  injection H as ->. rewrite Hs in Hn. apply no_sep_app in Hn as [_ Hn]. apply no_sep_cons in Hn as [_ Hn]. exact Hn.
+Qed.
+
+Lemma set_extension_ok p ext : no_sep ext -> exists q, set_extension p ext = Ok q.
+Proof.
+  intros He. unfold set_extension. rewrite (no_sep_existsb _ He).
+  destruct (file_prefix p) as [[front f]|]; [|eauto].
+  destruct (fst (rsplit_file_at_dot f)); eauto.
+Qed.
+
+Lemma L_add_total p : exists q, add_lock_suffix p = Ok q.
+Proof.
+  unfold add_lock_suffix. apply set_extension_ok.
+  destruct (extension p) as [e|] eqn:E; [|reflexivity].
+  apply no_sep_app. split; [exact (extension_no_sep _ _ E)|exact no_sep_lock].
+Qed.
+
+(* without a file name the path is returned unchanged (and acquisition then fails: Proofs of acquire) *)
+Lemma L_add_no_file_name p : file_name p = None -> add_lock_suffix p = Ok p.
+Proof.
+  intros H. unfold add_lock_suffix, extension. rewrite H. unfold set_extension. cbn [existsb].
+  replace (existsb is_sep (bs "lock")) with false by reflexivity.
+  unfold file_name in H. destruct (file_prefix p) as [[front f]|]; [discriminate|reflexivity].
+Qed.
+
+(* injectivity: different clean resources never share a lock path *)
+Lemma L_lock_path_injective d1 n1 d2 n2 q :
+  valid_name n1 -> dir_ok d1 -> valid_name n2 -> dir_ok d2 ->
+  add_lock_suffix (d1 ++ n1) = Ok q -> add_lock_suffix (d2 ++ n2) = Ok q -> d1 ++ n1 = d2 ++ n2.
+Proof.
+  intros V1 D1 V2 D2 H1 H2.
+  rewrite (L_lock_path_is_suffix _ _ V1 D1) in H1. rewrite (L_lock_path_is_suffix _ _ V2 D2) in H2.
+  apply Ok_inj in H1. apply Ok_inj in H2. subst q.
+  rewrite !app_assoc in H2. apply app_inv_tail in H2. symmetry. exact H2.
+Qed.
+
+(* ---- the defect that was fixed, as a fact about the old definition ------------------------------ *)
+From GixV.C22 Require Import Spec.
+
+Lemma L_before_fix_lossy :
+  let p := bs "res." ++ [xff; xfe] in
+  valid_name p /\ dir_ok [] /\
+  add_lock_suffix_before_fix p = Ok (bs "res." ++ REPL ++ REPL ++ DOT_LOCK) /\
+  add_lock_suffix_before_fix p <> Ok (p ++ DOT_LOCK).
+Proof.
+  cbv zeta. repeat split; try (left; reflexivity); try discriminate.
+Qed.
+
+Lemma L_before_fix_dotdot :
+  let d := bs "x/" in let n := bs "..foo" in
+  valid_name n /\ dir_ok d /\
+  add_lock_suffix_before_fix (d ++ n) = Ok (bs "x/..") /\
+  add_lock_suffix (d ++ n) = Ok (bs "x/..foo.lock").
+Proof.
+  cbv zeta. repeat split; try discriminate. right. exists (bs "x"). reflexivity.
+Qed.
